@@ -515,8 +515,9 @@ def harnesses(tier: str) -> List[H]:
         cfgs = [("chain3", "method", 0), ("two_bases", "method", 0), ("diamond", "method", 0),
                 ("two_bases", "prop_get", 0), ("two_bases", "static", 1), ("chain3", "class", 1)]
     else:
-        cfgs = [(s, k, 0) for s in SHAPE_NAMES for k in KINDS if len(SHAPES[s]) == 3 or k in ("method", "prop_get", "static")]
-        cfgs += [("two_bases", "method", 1), ("chain3", "prop_set", 1), ("diamond", "method", 1)]
+        # every member kind on the 3-class hierarchies; on the 4-class ones methods only (+ the quick configurations)
+        cfgs = [(s, k, 0) for s in SHAPE_NAMES for k in KINDS if len(SHAPES[s]) == 3 or k == "method"]
+        cfgs += [("two_bases", "static", 1), ("chain3", "class", 1), ("chain3", "prop_set", 1)]
     for (shape, kind, via) in cfgs:
         n = len(SHAPES[shape])
         si, ki = SHAPE_NAMES.index(shape), KINDS.index(kind)
@@ -530,13 +531,13 @@ def harnesses(tier: str) -> List[H]:
             for i in range(n):
                 if i == 0 and o0 is not None:
                     defaults["o0"] = o0
-                elif tier == "quick" and n == 4 and i in (1, 3):
+                elif n == 4 and i in (1, 3) and (tier == "quick" or shape != "diamond"):
                     params.append(I("o%d" % i, 0, 2))
                 else:
                     params.append(I("o%d" % i, 0, len(OPTS) - 1))
             inv_classes = [0]
             params += [B("i%d" % i) for i in inv_classes] + [B("inv_all")]
-            with_fg = tier == "thorough" or (kind == "method" and shape == "two_bases")
+            with_fg = kind == "method" and (shape == "two_bases" or (tier == "thorough" and n == 3))
             if with_fg:
                 params += [B("fg")]
             params += truth(n) + [B("v%d" % i) for i in inv_classes]
